@@ -424,6 +424,10 @@ fn check_graph<K: Kmer + Send + Sync + Serialize + DeserializeOwned>(c: &GCase) 
     let uniq = format!("dbgv-{}-{:x}-{:?}", std::process::id(), c.aux, std::thread::current().id()).replace(|ch: char| !ch.is_ascii_alphanumeric() && ch != '-', "");
     let p1 = dir.join(format!("{}.gfa", uniq));
     let p2 = dir.join(format!("{}.tags.gfa", uniq));
+    // the target paths already hold longer files: an export must replace them, not overwrite a prefix
+    let stale = format!("{}S\t999999\tACGTACGT\nL\t999999\t+\t999999\t+\t3M\n{}", gfa, "X".repeat(64));
+    std::fs::write(&p1, &stale).map_err(|e| e.to_string())?;
+    std::fs::write(&p2, &stale).map_err(|e| e.to_string())?;
     let r1 = g.to_gfa(&p1).map_err(|e| format!("to_gfa: {}", e)).and_then(|_| std::fs::read_to_string(&p1).map_err(|e| e.to_string()));
     let _ = std::fs::remove_file(&p1);
     let t1 = r1?;
